@@ -8,6 +8,7 @@ use crate::frame::{
     FrameType, GetFrameType,
     verif_frames_c05::{
         any_cid, any_nat_type, any_socket_addr, any_varint, cid_eq, done, encode_exact, model_be_varint, skip_type,
+        stub_slice_index_fail,
     },
 };
 
@@ -36,6 +37,7 @@ fn body() {
 
 /// C05 NEW_CONNECTION_ID, any sequence >= retire_prior_to, cid length 1..=20, any token (quick tier: be_varint replaced by its verified model).
 #[kani::proof]
+#[kani::stub(core::slice::index::slice_index_fail, stub_slice_index_fail)]
 #[kani::unwind(22)]
 #[kani::stub(crate::varint::be_varint, model_be_varint)]
 fn c05_new_connection_id_roundtrip() {
@@ -44,6 +46,7 @@ fn c05_new_connection_id_roundtrip() {
 
 /// C05 NEW_CONNECTION_ID, any sequence >= retire_prior_to, cid length 1..=20, any token (thorough tier: the real nom be_varint).
 #[kani::proof]
+#[kani::stub(core::slice::index::slice_index_fail, stub_slice_index_fail)]
 #[kani::unwind(22)]
 fn c05_new_connection_id_roundtrip_real() {
     body()
